@@ -7,7 +7,8 @@
     * over exact rationals the hsv -> rgb case split treats hue 1 as hue 0 (`C18_hue_periodic`), every hue selects one
       of the six handled sectors (`C18_hue_sector`), greys ignore the hue (`C18_grey_ignores_hue`), and every channel of the
       result lies in [0, v] for saturation in [0,1] (`C18_hsv_to_rgb_range`);
-    * gray_alpha -> rgba carries the alpha, gray -> rgba sets alpha to max (`C18_gray_alpha`), the premultiplied grey is
+    * gray_alpha -> rgba carries the alpha, gray -> rgba sets alpha to max (`C18_gray_alpha`; between any two channel depths:
+      `C18_gray_alpha_depths`, `C18_alpha_convert_int`), the premultiplied grey is
       within one unit of g*a/255 (`C18_gray_alpha_premultiplied`);
     * the core 8-bit luminance agrees with the toolbox weights 0.30/0.59/0.11 within 0.52 of a unit (`C18_luminance_agrees`);
     * the two xyz matrices are inverse to each other within 2e-6 (`C18_xyz_matrices_inverse`, over Rat, literals re-read
@@ -398,6 +399,25 @@ example : hsvRoundTripQ (10/255) (200/255) (30/255) = ⟨10/255, 200/255, 30/255
 
 theorem C18_gray_alpha (g a : Int) :
     grayAlphaToRgba8 g a = [g, g, g, a] ∧ grayToRgba8 g = [g, g, g, 255] := ⟨rfl, rfl⟩
+
+/-- gray_alpha -> rgba between ANY two channel depths (8, 16, 32f): the three colour channels are channel_convert of the gray
+    and the alpha is channel_convert of the SOURCE alpha into the DESTINATION type (alpha carried over); gray -> rgba sets
+    alpha to the destination maximum -/
+theorem C18_gray_alpha_depths (s t : Depth) (g a : Int) :
+    grayAlphaToRgba s t g a = [chConv s t g, chConv s t g, chConv s t g, chConv s t a]
+    ∧ grayToRgba s t g = [chConv s t g, chConv s t g, chConv s t g, t.maxV] := ⟨rfl, rfl⟩
+
+/-- what "carried over" means on the integer depth changes (translated kernels): 8 -> 16 multiplies by 257 (255 -> 65535),
+    16 -> 8 is round-to-nearest division by 257 (65535 -> 255, 0x8000 -> 128), always in range -/
+theorem C18_alpha_convert_int (a : Int) (h0 : 0 ≤ a) :
+    (a ≤ 255 → chConv .d8 .d16 a = 257 * a)
+    ∧ (a ≤ 65535 → chConv .d16 .d8 a = (a + 128) / 257 ∧ 0 ≤ chConv .d16 .d8 a ∧ chConv .d16 .d8 a ≤ 255)
+    ∧ chConv .d8 .d16 255 = 65535 ∧ chConv .d16 .d8 65535 = 255 ∧ chConv .d16 .d8 32768 = 128 := by
+  refine ⟨?_, ?_, by decide, by decide, by decide⟩
+  · intro h; show up_div_B8_B16 a 255 65535 = 257 * a
+    unfold up_div_B8_B16; simp only []; omega
+  · intro h; show down_div_B16_B8 a 65535 255 = (a + 128) / 257 ∧ 0 ≤ down_div_B16_B8 a 65535 255 ∧ down_div_B16_B8 a 65535 255 ≤ 255
+    unfold down_div_B16_B8; simp only []; omega
 
 /-- gray_alpha -> rgb / gray premultiplies: within half a unit of g*a/255, never above the alpha -/
 theorem C18_gray_alpha_premultiplied (g a : Int) (hg : 0 ≤ g ∧ g ≤ 255) (ha : 0 ≤ a ∧ a ≤ 255) :
